@@ -5,6 +5,7 @@ cd "$(dirname "$0")/.."
 TIER=${1:-quick}; shift
 SEEDS=("$@"); [ ${#SEEDS[@]} -eq 0 ] && SEEDS=("")
 IDS=$(python3 -c "import json;print(' '.join(c['property_id'] for c in json.load(open('MANIFEST.json'))['checks']))")
+[ -n "${VERIF_IDS:-}" ] && IDS=$VERIF_IDS   # restrict the sweep to some checks
 bad=0
 mkdir -p /dev/shm/sweep-$$ && cp known_findings.json /dev/shm/sweep-$$/
 for s in "${SEEDS[@]}"; do
